@@ -1,354 +1,15 @@
-import PEval.Lemmas.APClassify
+import PEval.Properties.C04Core
+import PEval.Properties.Pipeline
 /-!
-# C04 — AP, APH and mAP equal the interpolated precision-recall area, within [0,1]
+# C04 — AP, APH and mAP equal the interpolated precision-recall area, within [0,1] (root)
 
-All statements are about the executable model `PEval/Model/AP.lean` (tied to the Python code by the
-correspondence run of `./check C04`) and hold for rankings of ANY length, any ground-truth count and
-any rational confidences / scores / heading weights.
+* `PEval/Properties/C04Core.lean` (namespace `PEval.C04`): the property theorems about the AP model;
+  the bounds assume that each ground truth is the ground truth of at most one result.
+* `PEval/Properties/Pipeline.lean` (namespace `PEval.PipelineProps`): the composition with the matcher
+  model — `pipeline_ap_in_unit`, `pipeline_frameMap_in_unit`, `pipeline_aph_le_ap`: on every frame the
+  pipeline produces, every defined AP / APH / mAP / mAPH lies in [0,1] and APH ≤ AP, the one-to-one
+  hypothesis being discharged by C01's theorems and inherited by every `divide_objects` bucket.
 
-Vocabulary: a ranking is the list of `Kind`s (`tp w` / `fp` / `ignored`) of the results in descending
-confidence order; `apOfKinds G ks` is what `Ap.__init__` computes from it (`ap`, `tp_list`, `fp_list`);
-`apOf tm mode targets thresholds G results` is the whole constructor (sort, classify, evaluate).
+The core is a separate module only because the composition imports it (no import cycle); the audit
+of `./check C04` imports this root and therefore sees both.
 -/
-
-namespace PEval.C04
-open PEval.AP
-
-/-! ## the value is the interpolated precision-recall area -/
-
-/-- The code-shaped computation (`interpolate_precision_recall_list` + `_calculate_ap`: scan from the
-last index down recording strictly larger precisions, sum `max_precision[i]·(recall[i] − recall[i+1])`
-down to recall 0) equals `Σ_i (r_i − r_{i−1}) · max_{j ≥ i} p_j`, for all precision / recall lists. -/
-theorem apCode_eq_apSpec (ps rs : List Rat) : calculateAp ps rs = apSpec ps rs :=
-  calculateAp_eq_apSpec ps rs
-
-/-- `Ap.ap` of a ranking: undefined (`inf`) without results, else the interpolated area of the points
-`p_i = cumTP_i/(i+1)`, `r_i = cumTP_i/G` (`0` if `G = 0`). -/
-theorem ap_eq_spec (G : Nat) (ks : List Kind) :
-    (apOfKinds G ks).ap =
-      if ks = [] then none
-      else some (apSpec (precFrom 0 (cumsum (ks.map Kind.tpw))) (recalls G (cumsum (ks.map Kind.tpw)))) := by
-  cases ks with
-  | nil => rfl
-  | cons k t =>
-    simp only [apOfKinds, tpFpLists, List.isEmpty_cons, Bool.false_eq_true, if_false,
-      calculateAp_eq_apSpec, reduceCtorEq]
-
-/-- the whole constructor: AP is defined exactly when there is at least one object result -/
-theorem ap_undefined_iff_no_result {tm : TpMetric} {m : Mode} {T : List Label} {th : List Rat}
-    {G : Nat} {rs : List Res} {a : ApOut} (h : apOf tm m T th G rs = .ok a) :
-    a.ap = none ↔ rs = [] := by
-  obtain ⟨ks, hk, rfl⟩ := apOf_ok h
-  have hl := classifyAll_length hk
-  have hp := (sortDesc_perm Res.conf rs).length_eq
-  cases ks with
-  | nil =>
-    simp only [apOfKinds_nil, true_iff]
-    exact List.length_eq_zero_iff.1 (by rw [← hp, ← hl]; rfl)
-  | cons k t =>
-    rw [apOfKinds_ap (List.cons_ne_nil _ _)]
-    simp only [reduceCtorEq, false_iff]
-    intro he
-    subst he
-    simp [sortDesc] at hl
-
-/-- `tp_list` / `fp_list` are the running sums of the TP weights / FP flags along the ranking -/
-theorem tp_list_eq_cumsum (G : Nat) (ks : List Kind) (h : ks ≠ []) :
-    (apOfKinds G ks).tpList = cumsum (ks.map Kind.tpw)
-      ∧ (apOfKinds G ks).fpList = cumsum (ks.map Kind.fpw) :=
-  apOfKinds_tpList h
-
-/-- AP reads only the TP weights along the ranking: a result without threshold ("ignored") occupies
-its rank exactly like an FP (precision is `cumTP_i/(i+1)`), only `fp_list` tells them apart -/
-theorem ignored_counts_as_rank (G : Nat) (ks ks' : List Kind)
-    (h : ks.map Kind.tpw = ks'.map Kind.tpw) : (apOfKinds G ks).ap = (apOfKinds G ks').ap := by
-  cases ks with
-  | nil =>
-    cases ks' with
-    | nil => rfl
-    | cons _ _ => simp at h
-  | cons k t =>
-    cases ks' with
-    | nil => simp at h
-    | cons k' t' =>
-      rw [apOfKinds_ap (List.cons_ne_nil _ _), apOfKinds_ap (List.cons_ne_nil _ _), h]
-
-/-! ## bounds -/
-
-theorem ap_nonneg (G : Nat) (ks : List Kind) (hw : ∀ k ∈ ks, 0 ≤ k.tpw) (x : Rat)
-    (h : (apOfKinds G ks).ap = some x) : 0 ≤ x := by
-  cases ks with
-  | nil => simp [apOfKinds_nil] at h
-  | cons k t =>
-    rw [apOfKinds_ap (List.cons_ne_nil _ _)] at h
-    cases h
-    apply apW_nonneg G (le_refl 0)
-    intro w hw'
-    obtain ⟨k', hk', rfl⟩ := List.mem_map.1 hw'
-    exact hw k' hk'
-
-/-- With TP weights in `[0,1]` and no more TPs than ground truths — which one-to-one matching
-guarantees, see `tp_le_gt_of_one_to_one` — the AP is at most 1. (Without the hypothesis the code
-returns values above 1, e.g. two TPs for one ground truth give 2.) -/
-theorem ap_le_one (G : Nat) (ks : List Kind) (hw : ∀ k ∈ ks, 0 ≤ k.tpw ∧ k.tpw ≤ 1)
-    (hone : (ks.filter Kind.isTp).length ≤ G) (x : Rat) (h : (apOfKinds G ks).ap = some x) :
-    x ≤ 1 := by
-  cases ks with
-  | nil => simp [apOfKinds_nil] at h
-  | cons k t =>
-    rw [apOfKinds_ap (List.cons_ne_nil _ _)] at h
-    cases h
-    have h1 : apW G 0 0 ((k :: t).map Kind.tpw) ≤ recallOf G ((k :: t).map Kind.tpw).sum := by
-      apply apW_le_recall_total G (le_refl 0) (by simp)
-      intro w hw'
-      obtain ⟨k', hk', rfl⟩ := List.mem_map.1 hw'
-      exact hw k' hk'
-    have h2 := sum_tpw_le_count (ks := k :: t) (fun x hx => (hw x hx).2)
-    have h3 : (((k :: t).filter Kind.isTp).length : Rat) ≤ (G : Rat) := by exact_mod_cast hone
-    exact le_trans h1 (recallOf_le_one G (le_trans h2 h3))
-
-/-- the hypotheses of `ap_le_one` on a concrete ranking (TP, FP, half-weight TP, ignored; 2 GT) -/
-example : (∀ k ∈ [Kind.tp 1, Kind.fp, Kind.tp (1/2), Kind.ignored], 0 ≤ k.tpw ∧ k.tpw ≤ 1)
-    ∧ ([Kind.tp 1, Kind.fp, Kind.tp (1/2), Kind.ignored].filter Kind.isTp).length ≤ 2 := by
-  refine ⟨?_, by decide⟩
-  intro k hk
-  simp only [List.mem_cons, List.not_mem_nil, or_false] at hk
-  rcases hk with rfl | rfl | rfl | rfl <;> simp only [Kind.tpw] <;> norm_num
-
-/-- … and the hypothesis is needed: one ground truth, two TPs (what the unrepaired tree produced in
-the map frame, DESIGN §7 F2) has "AP" 2 -/
-example : (apOfKinds 1 [Kind.tp 1, Kind.tp 1]).ap = some 2 := by
-  rw [apOfKinds_ap (List.cons_ne_nil _ _)]
-  simp [apW, recallOf, maxWith, precFrom, cumsumFrom, Kind.tpw]
-  norm_num
-
-/-- one-to-one matching ⇒ the hypothesis of `ap_le_one`: if every ground truth occurs in at most one
-result and the `G` of label `L` counts the ground truths of that label, the per-label evaluation
-(`target_labels = [L]`, as `Map` calls `Ap`) finds at most `G` TPs -/
-theorem tp_le_gt_of_one_to_one (tm : TpMetric) (m : Mode) (L : Label) (t : Rat) (rs : List Res)
-    (gts : List Gt) (hnd : (rs.filterMap (·.gt)).Nodup) (hsub : ∀ g ∈ rs.filterMap (·.gt), g ∈ gts)
-    {ks : List Kind} (h : classifyAll tm m [L] [t] rs = .ok ks) :
-    (ks.filter Kind.isTp).length ≤ (gts.filter (fun g => g.label == L)).length := by
-  have key : ∀ (r : Res) (k : Kind), classify tm m [L] [t] r = .ok k → k.isTp = true →
-      ∃ g, r.gt = some g ∧ g.label = L := by
-    intro r k hk htp
-    unfold classify at hk
-    cases hgt : r.gt with
-    | none =>
-      have hc : ∀ o, isResultCorrect m o r = .ok false := by
-        intro o; simp [isResultCorrect, hgt]
-      cases hg : getLabelThreshold (keyLabel r) [L] (some [t]) with
-      | error e => simp [hg] at hk
-      | ok o =>
-        cases o with
-        | none => simp only [hg, Except.ok.injEq] at hk; subst hk; cases htp
-        | some t' => simp only [hg, hc, Except.ok.injEq] at hk; subst hk; cases htp
-    | some g =>
-      refine ⟨g, rfl, ?_⟩
-      by_cases hl : g.label = L
-      · exact hl
-      · have : getLabelThreshold g.label [L] (some [t]) = .ok none := by
-          have hne : (L == g.label) = false := by
-            simp only [beq_eq_false_iff_ne, ne_eq]; exact fun e => hl e.symm
-          simp [getLabelThreshold, List.findIdx?_cons, hne]
-        simp only [keyLabel, hgt, this] at hk
-        cases hk; cases htp
-  have stepA : ∀ (rs : List Res) (ks : List Kind), classifyAll tm m [L] [t] rs = .ok ks →
-      (ks.filter Kind.isTp).length ≤ ((rs.filterMap (·.gt)).filter (fun g => g.label == L)).length := by
-    intro rs
-    induction rs with
-    | nil =>
-      intro ks h
-      simp only [classifyAll, Except.ok.injEq] at h
-      subst h; simp
-    | cons r rest ih =>
-      intro ks h
-      obtain ⟨k, ks0, hk, hks, rfl⟩ := classifyAll_cons_ok h
-      have := ih ks0 hks
-      by_cases htp : k.isTp = true
-      · obtain ⟨g, hg, hgl⟩ := key r k hk htp
-        simp only [List.filter_cons, htp, if_true, List.length_cons, List.filterMap_cons, hg, hgl,
-          beq_self_eq_true]
-        omega
-      · have hle : ((rest.filterMap (·.gt)).filter (fun g => g.label == L)).length
-            ≤ (((r :: rest).filterMap (·.gt)).filter (fun g => g.label == L)).length := by
-          cases hg : r.gt with
-          | none => simp [List.filterMap_cons, hg]
-          | some g =>
-            simp only [List.filterMap_cons, hg, List.filter_cons]
-            split <;> simp
-        simp only [List.filter_cons, htp, if_false, Bool.false_eq_true]
-        omega
-  refine le_trans (stepA rs ks h) ?_
-  apply length_le_of_nodup_subset (hnd.sublist List.filter_sublist)
-  intro g hg
-  rw [List.mem_filter] at hg ⊢
-  exact ⟨hsub g hg.1, hg.2⟩
-
-/-- For real result sets (each ground truth used at most once, heading weights in `[0,1]`) the per-label
-AP and APH lie in `[0,1]`. -/
-theorem ap_in_unit_interval (tm : TpMetric) (m : Mode) (L : Label) (t : Rat) (rs : List Res)
-    (gts : List Gt) (hnd : (rs.filterMap (·.gt)).Nodup) (hsub : ∀ g ∈ rs.filterMap (·.gt), g ∈ gts)
-    (hw : ∀ r ∈ rs, 0 ≤ r.hw ∧ r.hw ≤ 1) {a : ApOut}
-    (h : apOf tm m [L] [t] (gts.filter (fun g => g.label == L)).length rs = .ok a) (x : Rat)
-    (hx : a.ap = some x) : 0 ≤ x ∧ x ≤ 1 := by
-  obtain ⟨ks, hk, rfl⟩ := apOf_ok h
-  have hperm := (sortDesc_perm Res.conf rs).filterMap (·.gt)
-  have hnd' : ((sortDesc Res.conf rs).filterMap (·.gt)).Nodup := hperm.nodup_iff.2 hnd
-  have hsub' : ∀ g ∈ (sortDesc Res.conf rs).filterMap (·.gt), g ∈ gts :=
-    fun g hg => hsub g (hperm.mem_iff.1 hg)
-  have hone := tp_le_gt_of_one_to_one tm m L t _ gts hnd' hsub' hk
-  have hkw : ∀ k ∈ ks, 0 ≤ k.tpw ∧ k.tpw ≤ 1 := by
-    apply classifyAll_forall (P := fun k => 0 ≤ k.tpw ∧ k.tpw ≤ 1) _ hk
-    intro r hr k hk'
-    have hb := tpValue_bounds (tm := tm) (hw r (mem_sortDesc.1 hr))
-    rcases classify_tpw hk' with h0 | h1
-    · rw [h0]; exact ⟨le_refl 0, zero_le_one⟩
-    · rw [h1]; exact hb
-  exact ⟨ap_nonneg _ ks (fun k hk' => (hkw k hk').1) x hx, ap_le_one _ ks hkw hone x hx⟩
-
-/-! ## APH ≤ AP -/
-
-/-- Same results, same flags, each TP weighted by its heading agreement `≤ 1`: APH never exceeds AP,
-and is defined exactly when AP is. -/
-theorem aph_le_ap (m : Mode) (T : List Label) (th : List Rat) (G : Nat) (rs : List Res)
-    (hw : ∀ r ∈ rs, 0 ≤ r.hw ∧ r.hw ≤ 1) {a h : ApOut} (hh : apOf .aph m T th G rs = .ok h)
-    (ha : apOf .ap m T th G rs = .ok a) : optLe h.ap a.ap := by
-  obtain ⟨ksh, hkh, rfl⟩ := apOf_ok hh
-  obtain ⟨ksa, hka, rfl⟩ := apOf_ok ha
-  apply apOfKinds_mono
-  exact classifyAll_rel (fun r hr k k' h1 h2 => classify_metric_rel (hw r (mem_sortDesc.1 hr)) h1 h2)
-    hkh hka
-
-/-! ## the two extreme cases -/
-
-/-- every ground truth matched by a correct estimate and no wrong estimate ranked above one:
-the ranking starts with `G ≥ 1` full-weight TPs and has no TP weight after them ⇒ AP = 1 -/
-theorem ap_one_of_perfect (G : Nat) (hG : 0 < G) (rest : List Kind) (hrest : ∀ k ∈ rest, k.tpw = 0) :
-    (apOfKinds G (List.replicate G (Kind.tp 1) ++ rest)).ap = some 1 := by
-  have hne : List.replicate G (Kind.tp 1) ++ rest ≠ [] := by
-    cases G with
-    | zero => omega
-    | succ n => simp [List.replicate_succ]
-  rw [apOfKinds_ap hne]
-  congr 1
-  have hmap : (List.replicate G (Kind.tp 1) ++ rest).map Kind.tpw
-      = List.replicate G 1 ++ rest.map Kind.tpw := by
-    simp [List.map_append, List.map_replicate, Kind.tpw]
-  rw [hmap]
-  have hz : ∀ z ∈ rest.map Kind.tpw, z = 0 := by
-    intro z hz
-    obtain ⟨k, hk, rfl⟩ := List.mem_map.1 hz
-    exact hrest k hk
-  have hGq : (0 : Rat) < (G : Rat) := by exact_mod_cast hG
-  apply le_antisymm
-  · have hsum : (List.replicate G (1 : Rat) ++ rest.map Kind.tpw).sum = (G : Rat) := by
-      rw [List.sum_append, sum_zero hz, sum_replicate_one]
-      ring
-    have h1 := apW_le_recall_total G (i := 0) (c := 0) (ws := List.replicate G 1 ++ rest.map Kind.tpw)
-      (le_refl 0) (by simp) (by
-        intro w hw
-        rcases List.mem_append.1 hw with h | h
-        · rw [(List.mem_replicate.1 h).2]; exact ⟨zero_le_one, le_refl 1⟩
-        · rw [hz w h]; exact ⟨le_refl 0, zero_le_one⟩)
-    rw [hsum] at h1
-    exact le_trans h1 (recallOf_le_one G (le_refl _))
-  · have h2 := apW_perfect_ge G hG G (i := 0) (zs := rest.map Kind.tpw)
-      (fun z hz' => by rw [hz z hz'])
-    simp only [Nat.cast_zero] at h2
-    rwa [div_self (ne_of_gt hGq)] at h2
-
-/-- no correct estimate (no TP weight anywhere in a non-empty ranking) ⇒ AP = 0 -/
-theorem ap_zero_of_no_tp (G : Nat) (ks : List Kind) (hne : ks ≠ []) (h : ∀ k ∈ ks, k.tpw = 0) :
-    (apOfKinds G ks).ap = some 0 := by
-  rw [apOfKinds_ap hne]
-  congr 1
-  apply apW_zero
-  intro w hw
-  obtain ⟨k, hk, rfl⟩ := List.mem_map.1 hw
-  exact h k hk
-
-example : (apOfKinds 2 (List.replicate 2 (Kind.tp 1) ++ [Kind.fp, Kind.ignored])).ap = some 1 :=
-  ap_one_of_perfect 2 (by decide) _ (by intro k hk; simp at hk; rcases hk with rfl | rfl <;> rfl)
-
-/-! ## mAP / mAPH -/
-
-/-- mAP (resp. mAPH) is the mean of the per-label APs (APHs) that are defined, `inf` if none is -/
-theorem map_mean_of_defined {m : Mode} {is2d : Bool} {T : List Label} {th : List Rat}
-    {buckets : List (Label × List (List Res))} {nums : List (Label × Nat)} {o : MapOut}
-    (h : mapOf m is2d T th buckets nums = .ok o) :
-    o.map = meanDefined (o.aps.map (·.ap)) ∧ o.maph = meanDefined (o.aphs.map (·.ap))
-    ∧ ∀ l : List (Option Rat), meanDefined l =
-        if l.filterMap id = [] then none
-        else some ((l.filterMap id).sum / ((l.filterMap id).length : Rat)) := by
-  refine ⟨?_, ?_, ?_⟩
-  · unfold mapOf at h
-    split at h
-    · cases h
-    · cases h; rfl
-  · unfold mapOf at h
-    split at h
-    · cases h
-    · cases h; rfl
-  · intro l
-    unfold meanDefined
-    cases l.filterMap id <;> simp
-
-theorem map_undefined_iff (l : List (Option Rat)) : meanDefined l = none ↔ ∀ x ∈ l, x = none := by
-  unfold meanDefined
-  simp only []
-  constructor
-  · intro h x hx
-    split at h
-    · cases h
-    · next hlen =>
-      cases x with
-      | none => rfl
-      | some v =>
-        exfalso
-        have : v ∈ l.filterMap id := List.mem_filterMap.2 ⟨some v, hx, rfl⟩
-        exact hlen (List.length_pos_of_mem this)
-  · intro h
-    have : l.filterMap id = [] := by
-      apply List.eq_nil_iff_forall_not_mem.2
-      intro v hv
-      obtain ⟨x, hx, hxv⟩ := List.mem_filterMap.1 hv
-      rw [h x hx] at hxv
-      cases hxv
-    simp [this]
-
-/-- the mean of values in `[lo, hi]` lies in `[lo, hi]`; with `ap_in_unit_interval`: mAP, mAPH ∈ [0,1] -/
-theorem map_bounds (l : List (Option Rat)) (lo hi : Rat) (h : ∀ x, some x ∈ l → lo ≤ x ∧ x ≤ hi)
-    (v : Rat) (hv : meanDefined l = some v) : lo ≤ v ∧ v ≤ hi := by
-  unfold meanDefined at hv
-  simp only [] at hv
-  split at hv
-  · next hpos =>
-    cases hv
-    have hb := sum_bounds (v := l.filterMap id) (lo := lo) (hi := hi) (by
-      intro x hx
-      obtain ⟨y, hy, hyx⟩ := List.mem_filterMap.1 hx
-      cases y with
-      | none => cases hyx
-      | some z => cases hyx; exact h _ hy)
-    have hq : (0 : Rat) < ((l.filterMap id).length : Rat) := by exact_mod_cast hpos
-    exact ⟨(le_div_iff₀ hq).2 hb.1, (div_le_iff₀ hq).2 hb.2⟩
-  · cases hv
-
-/-! ## the ranking: `list.sort(key=confidence, reverse=True)` -/
-
-theorem sort_perm (rs : List Res) : (sortDesc Res.conf rs).Perm rs := sortDesc_perm _ rs
-
-theorem sort_sorted (rs : List Res) : (sortDesc Res.conf rs).Pairwise (fun a b => b.conf ≤ a.conf) :=
-  sortDesc_sorted _ rs
-
-/-- stability: the results of any one confidence value appear in their input order -/
-theorem sort_stable (rs : List Res) (c : Rat) :
-    (sortDesc Res.conf rs).filter (fun r => decide (r.conf = c))
-      = rs.filter (fun r => decide (r.conf = c)) := sortDesc_filter _ rs c
-
-/-- sorting again changes nothing (`Map` hands the list sorted by `Ap` on to the APH evaluation) -/
-theorem sort_idem (rs : List Res) :
-    sortDesc Res.conf (sortDesc Res.conf rs) = sortDesc Res.conf rs := sortDesc_idem _ rs
-
-end PEval.C04
